@@ -383,7 +383,9 @@ class C05(Prop):
                 raise Violation("bound-name-leaked", f"{tag}: inputs {sorted(t.inputs)} contain mangled bound names: {show(ast)}")
             ins = set(t.inputs)
             want = set(typeof(ast)[0])
-            if mode == "reflect" and ins != want:
+            # (a root substitution applied after the context runs under the default interpretation and may
+            # legitimately drop names, e.g. by selecting one part of a Stack)
+            if mode == "reflect" and not (late and ast[0] == "sub") and ins != want:
                 raise Violation("lazy-inputs-differ-from-free-names", f"{tag}: inputs {sorted(ins)} but free names {sorted(want)}: {show(ast)}")
             if not ins <= want:
                 raise Violation("extra-inputs", f"{tag}: inputs {sorted(ins)} not among free names {sorted(want)}: {show(ast)}")
